@@ -508,6 +508,51 @@ func genSwitch(repo string) (string, error) {
 	sb.WriteString("(* internal/codec/query.go decodeQuery: the loop body starts with `if len(values) == 0 { continue }` *)\n")
 	fmt.Fprintf(&sb, "Definition query_empty_values_skipped : bool := %s.\n", coqBool(emptyGuard))
 
+	// decodeMapField: the scalar and enum arms refuse a repeated key
+	dmf := findFunc(df, "decoder", "decodeMapField")
+	if dmf == nil {
+		return "", fmt.Errorf("decoder.go: decodeMapField not found")
+	}
+	dupArms := 0
+	ast.Inspect(dmf, func(n ast.Node) bool {
+		cc, ok := n.(*ast.CaseClause)
+		if !ok || len(cc.List) != 1 {
+			return true
+		}
+		name := exprString(dfset, cc.List[0])
+		if name != "j5reflect.MapOfScalarField" && name != "j5reflect.MapOfEnumField" {
+			return true
+		}
+		found := false
+		ast.Inspect(cc, func(x ast.Node) bool {
+			if ifs, ok := x.(*ast.IfStmt); ok && ifs.Init != nil && strings.Contains(exprString(dfset, ifs.Cond), "dup") {
+				for _, b := range ifs.Body.List {
+					if _, ok := b.(*ast.ReturnStmt); ok {
+						found = true
+					}
+				}
+			}
+			return true
+		})
+		if found {
+			dupArms++
+		}
+		return true
+	})
+	sb.WriteString("(* decodeMapField: both leaf arms (scalar, enum) return an error on a repeated key *)\n")
+	fmt.Fprintf(&sb, "Definition leaf_map_dup_key_rejected : bool := %s.\n", coqBool(dupArms == 2))
+	// property_set.go CreateField calls oneofConflict before building
+	_, psf, err := gen.ParseFile(filepath.Join(repo, "lib/j5reflect/property_set.go"))
+	if err != nil {
+		return "", err
+	}
+	cf := findFunc(psf, "property", "CreateField")
+	if cf == nil {
+		return "", fmt.Errorf("property_set.go: CreateField not found")
+	}
+	sb.WriteString("(* lib/j5reflect/property_set.go CreateField calls oneofConflict *)\n")
+	fmt.Fprintf(&sb, "Definition create_field_checks_oneof : bool := %s.\n", coqBool(containsCall(cf, "oneofConflict")))
+
 	// oneof post-check: the `if len(foundKeys) == 0` block ends with a return
 	oi := findFunc(df, "decoder", "decodeOneofInner")
 	if oi == nil {
